@@ -16,6 +16,7 @@ import (
 	"sync"
 
 	req "github.com/imroc/req/v3"
+	"github.com/imroc/req/v3/http2"
 	"github.com/imroc/req/v3/verifharness/hk"
 	"github.com/imroc/req/v3/verifharness/wire"
 )
@@ -32,6 +33,7 @@ type gen struct {
 	xs     []*exch
 	files  []*fileScenario
 	groups []*h2group
+	wins   []*winScenario
 }
 
 func (g *gen) h1(a *aresp, o *h1opts, method, mode, segK string, decode bool) *exch {
@@ -52,6 +54,9 @@ func (g *gen) h1(a *aresp, o *h1opts, method, mode, segK string, decode bool) *e
 
 func (g *gen) h2(a *aresp, method, mode, segK string, declare bool) *exch {
 	o := &h2opts{Declare: declare, DeclareTr: g.rng.Chance(60)}
+	if g.rng.Chance(35) {
+		o.customTable, o.TableSize = true, hk.Pick(g.rng, []int{65536, 65536, 256, 0})
+	}
 	if g.rng.Chance(10) {
 		o.ContFrag = g.rng.Range(1, 200)
 	}
@@ -142,7 +147,7 @@ func (g *gen) build() {
 	smallLens := []int{0, 1, 2, 3, 17, 100, 255, 256, 511, 512, 513, 1000}
 	// A. small bodies x framings x modes x segmentations
 	for i, n := 0, r.Scale(380, 6000); i < n; i++ {
-		a := genAresp(rng, hk.Pick(rng, smallLens), rng.Intn(9), i%5 == 0)
+		a := genAresp(rng, hk.Pick(rng, smallLens), rng.Intn(9), i%10 == 0)
 		g.h1(a, g.pickFraming(a), "GET", hk.Pick(rng, modes), hk.Pick(rng, segKinds), rng.Chance(30))
 	}
 	// B. body lengths at the boundary table, every framing
@@ -202,10 +207,10 @@ func (g *gen) build() {
 		g.h1(a, o, method, hk.Pick(rng, modes), hk.Pick(rng, segKinds), false)
 	}
 	// E. many / long header fields
-	for i, n := 0, r.Scale(50, 800); i < n; i++ {
+	for i, n := 0, r.Scale(36, 800); i < n; i++ {
 		// long values (also longer than the 4096-byte bufio buffer); the checker evaluates the linear-time
 		// copy of the reader (Model/H1Fast.v, proved equal to the original)
-		a := genAresp(rng, hk.Pick(rng, smallLens), rng.Range(10, 30), true)
+		a := genAresp(rng, hk.Pick(rng, smallLens), rng.Range(10, 30), i%2 == 0)
 		g.h1(a, g.pickFraming(a), "GET", hk.Pick(rng, modes), hk.Pick(rng, segKinds), false)
 	}
 	// F. HTTP/2: DATA partitions with padding / empty frames / CONTINUATION, trailers, interim responses
@@ -353,8 +358,31 @@ func (g *gen) build() {
 	for i, n := 0, r.Scale(40, 400); i < n; i++ {
 		g.groups = append(g.groups, genGroup(g, i))
 	}
+	// O. round 5: chunked bodies of hundreds of chunks whose size lines carry a long extension (valid: the
+	//    overhead stays below 16 + twice the chunk's data), with trailers; accumulation over one body
+	for i, n := 0, r.Scale(4, 60); i < n; i++ {
+		ext := hk.Pick(rng, []int{81, 60, 100, 140})
+		clen := hk.Pick(rng, []int{64, 100, 256})
+		if 2*clen+16 < ext+6 {
+			clen = ext
+		}
+		nchunks := hk.Pick(rng, []int{240, 300, r.Scale(300, 420)})
+		a := genAresp(rng, 0, rng.Intn(3), false)
+		for !bodyAllowed(a.Code) || a.Code >= 300 && a.Code < 400 {
+			a = genAresp(rng, 0, rng.Intn(3), false)
+		}
+		a.Interim = nil
+		a.setBody(rng, nchunks*clen-rng.Intn(clen))
+		a.Trailers = genTrailers(rng, false)
+		o := &h1opts{Framing: wire.FrChunked, Declare: rng.Bool(), LongExt: ext, ChunkLen: clen}
+		g.h1(a, o, "GET", hk.Pick(rng, modes), hk.Pick(rng, []string{"one", "random"}), false)
+	}
+	// P. round 5: connection-level flow-control credit across exchanges
+	for i, n := 0, r.Scale(10, 100); i < n; i++ {
+		g.wins = append(g.wins, genWinScenario(rng, i))
+	}
 	// K. output files as state across exchanges
-	for i, n := 0, r.Scale(24, 300); i < n; i++ {
+	for i, n := 0, r.Scale(16, 300); i < n; i++ {
 		g.files = append(g.files, genFileScenario(rng, i, filepath.Join(r.OutDir, "dl")))
 	}
 	// I. Response API cells (round 2), on all three protocols
@@ -400,7 +428,7 @@ func runC02(r *hk.Run) {
 	r.Header = "From ReqV Require Import Model.C02Run."
 	r.CaseType = "c02_case"
 	r.CheckFn = "c02_check"
-	r.ShardSize = 50
+	r.ShardSize = 25
 	r.Rule = "non-trivial: the response has a non-empty body, or at least 3 header fields, or trailers, or interim 1xx responses"
 	g := &gen{r: r, rng: hk.NewRand(r.Seed)}
 	g.build()
@@ -434,6 +462,14 @@ func runC02(r *hk.Run) {
 			defer wg.Done()
 			clients := map[bool]*req.Client{false: newH1Client(srv.Addr(), false), true: newH1Client(srv.Addr(), true)}
 			c2 := newH2Client(srv2.ln.Addr().String(), false)
+			// round 5: clients announcing another HPACK table size; the peer honours the announcement (dynamic
+			// table size update, entries reused across the exchanges of the connection)
+			c2tab := map[int]*req.Client{}
+			for _, ts := range []int{65536, 256, 0} {
+				c2tab[ts] = newH2Client(srv2.ln.Addr().String(), false).SetHTTP2SettingsFrame(
+					http2.Setting{ID: http2.SettingHeaderTableSize, Val: uint32(ts)},
+					http2.Setting{ID: http2.SettingInitialWindowSize, Val: 4 << 20})
+			}
 			c3 := newH3Client(false)
 			for i := w; i < len(g.xs); i += workers {
 				x := g.xs[i]
@@ -441,7 +477,11 @@ func runC02(r *hk.Run) {
 				case "h1":
 					x.runH1(srv, clients[x.Decode], outDir)
 				case "h2":
-					x.runH2(srv2, c2, outDir)
+					if c, ok := c2tab[x.H2.TableSize]; ok && x.H2.TableSize >= 0 && x.H2.customTable {
+						x.runH2(srv2, c, outDir)
+					} else {
+						x.runH2(srv2, c2, outDir)
+					}
 				case "h3":
 					x.runH3(srv3, c3, outDir)
 				}
@@ -480,6 +520,21 @@ func runC02(r *hk.Run) {
 			c.Coq = grp.coq()
 		}
 		r.Add(c, grp.key(), nt)
+	}
+	var wwg sync.WaitGroup
+	for _, sc := range g.wins {
+		wwg.Add(1)
+		go func(sc *winScenario) { defer wwg.Done(); sc.run(srv2) }(sc)
+	}
+	wwg.Wait()
+	for _, sc := range g.wins {
+		sc.oracle(r)
+		r.Count("h2-window-scenario")
+		c := hk.Case{Desc: map[string]interface{}{"kind": "h2-window", "scenario": sc}}
+		if sc.finished {
+			c.Coq = sc.coq()
+		}
+		r.Add(c, fmt.Sprintf("win|%v|%d", sc.Steps, sc.Flow), true)
 	}
 	for _, sc := range g.files {
 		sc.run(srv)
@@ -532,15 +587,15 @@ func runC02(r *hk.Run) {
 		emit := !x.s.Hung && x.s.Panic == ""
 		if len(x.wire) > 20000 || len(x.A.Body) > 20000 {
 			bigN[x.Proto]++
-			if bigN[x.Proto] > r.Scale(36, 150) {
+			if bigN[x.Proto] > r.Scale(20, 150) {
 				emit = false // the Go oracle still decides these; the model is evaluated on a bounded number of large bodies
 			}
 		}
 		if len(x.SegK) > 5 && x.SegK[:5] == "split" && len(x.segs) == 1 && x.segs[0]%6 != 1 {
 			emit = false // same wire bytes: the model's answer is the same
 		}
-		if len(x.A.Body) > 140000 {
-			emit = false
+		if len(x.A.Body) > r.Scale(70000, 140000) {
+			emit = false // large bodies are decided by the oracle only (coqc memory)
 		}
 		if emit {
 			switch x.Proto {
